@@ -197,37 +197,93 @@ class EffectDomain(DefaultDomain):
             ent = dict(base[1])
             if ok and k in ent:
                 return ent[k]
-        if isinstance(base, tuple) and base[:1] == ("kwdict",) and isinstance(idx, tuple) and idx[:1] == ("const",):
-            for k, v in base[1]:
-                if k == idx[1]:
-                    return v
+        if isinstance(base, tuple) and base[:1] == ("kwdict",):
+            ok, key = self._dkey(idx)
+            if ok:
+                for k, v in base[1]:
+                    if k == key:
+                        return v
+        return None
+
+    # Keys of an exact dict: a python constant stands for itself, a symbolic object (identity-like abstract
+    # value) is kept as ("#", value).
+    IDENTITY_TAGS = ("wobj", "new", "sym", "arg", "ret", "bound")
+
+    @classmethod
+    def _dkey(cls, v):
+        if isinstance(v, tuple) and len(v) == 2 and v[0] == "const":
+            return True, v[1]
+        if isinstance(v, tuple) and v and v[0] in cls.IDENTITY_TAGS:
+            return True, ("#", v)
+        return False, None
+
+    @staticmethod
+    def _dkey_abs(k):
+        if isinstance(k, tuple) and len(k) == 2 and k[0] == "#":
+            return k[1]
+        return ("const", k)
+
+    def subscript_multi(self, base, idx, st, fr):
+        """d[k] on an exact dict whose key is known to be absent raises KeyError."""
+        if isinstance(base, tuple) and base[:1] == ("kwdict",):
+            ok, key = self._dkey(idx)
+            if ok and all(k != key for k, _ in base[1]):
+                return [exc(("exc", "KeyError"), st)]
+        return None
+
+    def delete(self, interp, target, st, fr):
+        """del d[k] on a local / self attribute holding an exact dict"""
+        if not isinstance(target, ast.Subscript):
+            return None
+        key = interp._key_of(target.value, fr)
+        cur = st.get(key, None) if key is not None else None
+        if not (isinstance(cur, tuple) and cur[:1] == ("kwdict",)):
+            return None
+        for r in interp.eval(target.slice, st, fr):
+            if r.kind == "val":
+                ok, k_ = self._dkey(r.value)
+                if ok:
+                    return r.state.set(key, ("kwdict", tuple((k, v) for k, v in cur[1] if k != k_)))
+                return r.state.set(key, TOP)
         return None
 
     def store_subscript(self, target, value, st, fr, interp):
         # kw["name"] = value on a local holding a keyword dict
-        if isinstance(target.value, ast.Name) and isinstance(target.slice, ast.Constant):
-            key = fr.local(target.value.id)
-            cur = st.get(key, None)
-            if isinstance(cur, tuple) and cur[:1] == ("kwdict",):
-                items = tuple((k, v) for k, v in cur[1] if k != target.slice.value) + ((target.slice.value, value),)
-                return st.set(key, ("kwdict", items))
+        key = interp._key_of(target.value, fr)
+        cur = st.get(key, None) if key is not None else None
+        if isinstance(cur, tuple) and cur[:1] == ("kwdict",):
+            for r in interp.eval(target.slice, st, fr):
+                if r.kind != "val":
+                    continue
+                ok, k_ = self._dkey(r.value)
+                if not ok:
+                    return r.state.set(key, TOP)
+                if any(k == k_ for k, _ in cur[1]):
+                    items = tuple((k, value if k == k_ else v) for k, v in cur[1])   # a dict keeps the position of an existing key
+                else:
+                    items = cur[1] + ((k_, value),)
+                s2 = r.state.set(key, ("kwdict", items))
+                if key in self.track_stores:
+                    log = s2.get("ev.calls", ())
+                    s2 = s2.set("ev.calls", log + (("store:" + key, (self._dkey_abs(k_), value), (), "ok"),))
+                return s2
         return st
 
     def iter_exact(self, value):
         if isinstance(value, tuple) and value[:1] == ("kwitems",):
-            return [("tuple", ("const", k), v) for k, v in value[1]]
+            return [("tuple", self._dkey_abs(k), v) for k, v in value[1]]
         if isinstance(value, tuple) and value[:1] == ("kwdict",):
-            return [("const", k) for k, _ in value[1]]
+            return [self._dkey_abs(k) for k, _ in value[1]]
         return None
 
     def _kwdict_method(self, interp, call, st, fr):
         """get / pop / setdefault / items / keys / values / copy on a local that holds a keyword dict."""
         f = call.func
-        if not (isinstance(f, ast.Attribute) and isinstance(f.value, ast.Name)):
+        if not (isinstance(f, ast.Attribute) and isinstance(f.value, (ast.Name, ast.Attribute))):
             return None
-        key = fr.local(f.value.id)
-        cur = st.get(key, None)
-        if not (isinstance(cur, tuple) and cur[:1] == ("kwdict",)) or f.attr not in ("get", "pop", "setdefault", "items", "keys", "values", "copy", "update"):
+        key = interp._key_of(f.value, fr)
+        cur = st.get(key, None) if key is not None else None
+        if not (isinstance(cur, tuple) and cur[:1] == ("kwdict",)) or f.attr not in ("get", "pop", "popitem", "clear", "setdefault", "items", "keys", "values", "copy", "update"):
             return None
         out = []
         for r in interp.eval_list(list(call.args), st, fr):
@@ -237,11 +293,19 @@ class EffectDomain(DefaultDomain):
             cur = r.state.get(key)
             d_ = dict(cur[1])
             a = r.value
-            name = a[0][1] if a and isinstance(a[0], tuple) and a[0][:1] == ("const",) else None
+            name = self._dkey(a[0])[1] if a else None
             if f.attr == "items":
                 out.append(val(("kwitems", cur[1]), r.state))
+            elif f.attr == "clear":
+                out.append(val(NONE, r.state.set(key, ("kwdict", ()))))
+            elif f.attr == "popitem":
+                if cur[1]:
+                    k_, v_ = cur[1][-1]
+                    out.append(val(("tuple", self._dkey_abs(k_), v_), r.state.set(key, ("kwdict", cur[1][:-1]))))
+                else:
+                    out.append(exc(("exc", "KeyError"), r.state))
             elif f.attr == "keys":
-                out.append(val(("tuple",) + tuple(("const", k) for k, _ in cur[1]), r.state))
+                out.append(val(("tuple",) + tuple(self._dkey_abs(k) for k, _ in cur[1]), r.state))
             elif f.attr == "values":
                 out.append(val(("tuple",) + tuple(v for _, v in cur[1]), r.state))
             elif f.attr == "copy":
@@ -418,7 +482,12 @@ class EffectDomain(DefaultDomain):
                     return r.state.set("ev.calls.overflow", 1)
                 return r.state.set("ev.calls", log + ((name, tuple(pos), tuple(kw), tag),))
 
-            outcomes = self.oracle(name, tuple(pos), tuple(kw)) if self.oracle is not None else None
+            if self.oracle is None:
+                outcomes = None
+            elif getattr(self, "oracle_state", False):
+                outcomes = self.oracle(name, tuple(pos), tuple(kw), r.state)   # the oracle may consult the history so far
+            else:
+                outcomes = self.oracle(name, tuple(pos), tuple(kw))
             if outcomes is None:
                 outcomes = [("val", v) for v in self.results.get(name, self.results.get("*." + bound[2], [("ret", name if isinstance(obj, tuple) else obj, bound[2])]))]
                 outcomes += [("exc", e) for e in self.raises.get(name, self.raises.get("*." + bound[2], []))]
@@ -493,8 +562,40 @@ class EffectDomain(DefaultDomain):
                     out.append(val(("const", len(p_)), r.state))
                 elif isinstance(r.value, tuple) and r.value[:1] == ("tuple",):
                     out.append(val(("const", len(r.value) - 1), r.state))
+                elif isinstance(r.value, tuple) and r.value[:1] in (("kwdict",), ("kwitems",)):
+                    out.append(val(("const", len(r.value[1])), r.state))
                 else:
                     known = False
+            if known:
+                return out
+        if d == "enumerate" and 1 <= len(call.args) <= 2 and not call.keywords:
+            out = []
+            known = True
+            for r in interp.eval_list(list(call.args), st, fr):
+                if r.kind == "exc":
+                    out.append(r)
+                    continue
+                els = interp._exact_elements(r.value[0])
+                ok_, start = self._py(r.value[1]) if len(r.value) > 1 else (True, 0)
+                if els is None or not ok_:
+                    known = False
+                    break
+                out.append(val(("tuple",) + tuple(("tuple", ("const", start + i), e_) for i, e_ in enumerate(els)), r.state))
+            if known:
+                return out
+        if d == "range" and 1 <= len(call.args) <= 3 and not call.keywords:
+            out = []
+            known = True
+            for r in interp.eval_list(list(call.args), st, fr):
+                if r.kind == "exc":
+                    out.append(r)
+                    continue
+                pys = [self._py(v) for v in r.value]
+                if all(ok_ and isinstance(p_, int) and not isinstance(p_, bool) for ok_, p_ in pys) and len(range(*[p_ for _, p_ in pys])) <= 8:
+                    out.append(val(("tuple",) + tuple(("const", i) for i in range(*[p_ for _, p_ in pys])), r.state))
+                else:
+                    known = False
+                    break
             if known:
                 return out
         if d in ("set", "frozenset") and len(call.args) <= 1 and not call.keywords:
@@ -612,7 +713,17 @@ class EffectDomain(DefaultDomain):
             out = []
             pos = [a.value if isinstance(a, ast.Starred) else a for a in call.args]
             for r in interp.eval_list(pos + [k.value for k in call.keywords], st, fr):
-                out.append(r if r.kind == "exc" else val(("new", d.split(".")[-1], tuple(r.value[: len(pos)]), tuple((k.arg or "**", v) for k, v in zip(call.keywords, r.value[len(pos):]))), r.state))
+                if r.kind == "exc":
+                    out.append(r)
+                    continue
+                obj = ("new", d.split(".")[-1], tuple(r.value[: len(pos)]), tuple((k.arg or "**", v) for k, v in zip(call.keywords, r.value[len(pos):])))
+                s2 = r.state
+                if getattr(self, "unique_ctors", False):
+                    # every construction yields a distinct object: number the allocations
+                    n_ = s2.get("ev.alloc", 0)
+                    obj = obj + (n_,)
+                    s2 = s2.set("ev.alloc", n_ + 1)
+                out.append(val(obj, s2))
             return out
         if d == "bool" and len(call.args) == 1 and not call.keywords:
             out = []
@@ -656,6 +767,20 @@ class EffectDomain(DefaultDomain):
         bound = self._bound_of(interp, call.func, st, fr)
         if bound is not None:
             return self._call_bound(interp, bound, call, st, fr)
+        if isinstance(call.func, ast.Attribute) and any(isinstance(n_, ast.Call) for n_ in ast.walk(call.func.value)) and not d.startswith("super()"):
+            # <expression with calls>.m(...): the receiver is evaluated (once, for its effects too), then the method is called on it
+            out = []
+            for r in interp.eval(call.func.value, st, fr):
+                if r.kind == "exc":
+                    out.append(r)
+                elif isinstance(r.value, tuple) and r.value[:1] in (("wobj",), ("new",)):
+                    out.extend(self._call_bound(interp, ("bound", r.value[1] if r.value[0] == "wobj" else r.value, call.func.attr), call, r.state, fr))
+                elif r.value == NONE:
+                    out.append(exc(("exc", "AttributeError"), r.state))
+                else:
+                    for r2 in interp.eval_list([a.value if isinstance(a, ast.Starred) else a for a in call.args] + [k.value for k in call.keywords], r.state, fr):
+                        out.append(r2 if r2.kind == "exc" else val(TOP, r2.state))
+            return out
         if isinstance(call.func, ast.Attribute) and isinstance(call.func.value, ast.Name) and st.get(fr.local(call.func.value.id), None) == NONE:
             return [exc(("exc", "AttributeError"), st)]   # None.<method>(...)
         if self.track(d) or d in self.results or d in self.raises:
